@@ -29,6 +29,17 @@ ASSUMPTIONS = ['guards are compared in canonical linear form (x > max == x - max
 
 def _guard_pair(ctx, fn, ret, value, lo, hi, key, lo_none=None, hi_none=None):
     res = resolver(ctx, fn, inline=False)
+    # the validated variable must not change between its validation and the return
+    g = ctx.cfg(fn)
+    tests = [n for n in g.nodes if n.kind == 'test' and n.expr is not None and any(
+        isinstance(x, ast.Name) and x.id == value for x in ast.walk(n.expr)) and any(
+        isinstance(x, ast.Compare) and not isinstance(x.ops[0], (ast.Is, ast.IsNot)) and any(isinstance(y, ast.Name) and y.id == value for y in ast.walk(x)) for x in ast.walk(n.expr))]
+    writes = [n for n in g.nodes if n.kind == 'stmt' and isinstance(n.stmt, (ast.Assign, ast.AugAssign, ast.AnnAssign)) and any(
+        isinstance(t, ast.Name) and t.id == value for t in (n.stmt.targets if isinstance(n.stmt, ast.Assign) else [n.stmt.target]))]
+    rn = g.node_of(ret)
+    late = [w for w in writes if any(g.reaches(t.id, w.id) for t in tests) and g.reaches(w.id, rn)]
+    ctx.check(not late, f'{key}:unchanged-after-validation', fn.site(late[0].stmt) if late else fn.site(ret),
+              f'the value that was validated is the value returned', '; '.join(unparse(w.stmt) for w in late) + ' modifies it after the bounds were tested')
     for name, text, none_atom in ((f'{key}:upper', f'{value} <= {hi}', hi_none), (f'{key}:lower', f'{value} >= {lo}', lo_none)):
         lit = lit_cmp(ctx, fn, text, res)
         side = (lambda l, a=none_atom: l == ('isnone', a, True)) if none_atom else (lambda l: False)
@@ -306,6 +317,9 @@ MUTANTS = [
     V('c12-valid-address-ignored', 'assembler/model/operand/types/numeric_expression.py', "        return self.config['argument'].get('valid_address', False)", "        return self.config.get('valid_address', False)", 'C12.2'),
     V('c12-rel-minmax-swapped', _R, "            self.min_offset,\n            self.max_offset,", "            self.max_offset,\n            self.min_offset,", 'C12.2'),
     V('c12-address-zone-global', _A, "            self.valid_memory_zone(memzone_manager),", "            memzone_manager.global_zone,", 'C12.2'),
+]
+MUTANTS += [
+    V('c12-rel-wrap-negative', _R, "        return relative_value\n", "        if relative_value < 0:\n            relative_value &= (1 << self.value_size) - 1\n        return relative_value\n", 'C12.1'),
 ]
 TWINS = [
     V('c12-t-flip', _P, "if self._max is not None and value > self._max:", "if self._max is not None and self._max < value:"),
